@@ -1440,58 +1440,63 @@ class Finding:
 
 def alloc_labels(o, t, v, flat_top):
     """[( (size, align), class )] for every non-empty buffer the canonical ABI allocates when lowering v : t, in the
-    spec's order (buffer of a list before its elements).  Sizes come from the oracle's layout."""
+    spec's order (buffer of a list before its elements).  Sizes come from the oracle's layout.  Classes follow
+    class_of_path: the fixed-length-list nesting above the outermost heap buffer, then `heap` for that outermost buffer
+    itself or `nested-heap` for a buffer that lives inside another buffer's elements."""
     out = []
 
-    def go(t, v, conts):
+    def lab(fixeds, nested):
+        return "/".join(fixeds + ["nested-heap" if nested else "heap"])
+
+    def go(t, v, fixeds, nested):
         k = t["k"]
         if k == "string":
             if len(v[1]):
-                out.append(((len(v[1]), 1), "/".join(conts + ["heap"])))
+                out.append(((len(v[1]), 1), lab(fixeds, nested)))
         elif k == "list":
             sz, al, _ = o.layout(t["t"])
             if len(v[1]) * sz:
-                out.append(((len(v[1]) * sz, al), "/".join(conts + ["heap"])))
+                out.append(((len(v[1]) * sz, al), lab(fixeds, nested)))
             for x in v[1]:
-                go(t["t"], x, conts + ["list"])
+                go(t["t"], x, fixeds, True)
         elif k == "map":
             et = {"k": "tuple", "ts": [t["key"], t["val"]]}
             sz, al, _ = o.layout(et)
             if len(v[1]) * sz:
-                out.append(((len(v[1]) * sz, al), "/".join(conts + ["heap"])))
+                out.append(((len(v[1]) * sz, al), lab(fixeds, nested)))
             for e in v[1]:
-                go(t["key"], e[1][0], conts + ["map"])
-                go(t["val"], e[1][1], conts + ["map"])
+                go(t["key"], e[1][0], fixeds, True)
+                go(t["val"], e[1][1], fixeds, True)
         elif k == "fixed":
             for x in v[1]:
-                go(t["t"], x, conts + ["fixed"])
+                go(t["t"], x, fixeds if nested else fixeds + ["fixed"], nested)
         elif k == "tuple":
             for tt, x in zip(t["ts"], v[1]):
-                go(tt, x, conts)
+                go(tt, x, fixeds, nested)
         elif k == "record":
             for f, x in zip(t["fields"], v[1]):
-                go(f["t"], x, conts)
+                go(f["t"], x, fixeds, nested)
         elif k == "option":
             if v[1] == 1:
-                go(t["t"], v[2], conts)
+                go(t["t"], v[2], fixeds, nested)
         elif k == "result":
             pt = t["ok"] if v[1] == 0 else t["err"]
             if pt:
-                go(pt, v[2], conts)
+                go(pt, v[2], fixeds, nested)
         elif k == "variant":
             pt = t["cases"][v[1]]["t"]
             if pt:
-                go(pt, v[2], conts)
-    go(t, v, [])
+                go(pt, v[2], fixeds, nested)
+    go(t, v, [], False)
     return out
 
 
 def label_blocks(blocks, labels):
-    """classes of the (size, align) blocks according to the labelled prediction (ambiguous sizes give a|b)"""
+    """classes of the (size, align) blocks according to the labelled prediction: the set of all candidate classes"""
     res = set()
     for b in blocks:
-        c = sorted(set(l for sa, l in labels if sa == tuple(b)))
-        res.add("|".join(c) if c else "unpredicted(%d:%d)" % tuple(b))
+        c = set(l for sa, l in labels if sa == tuple(b))
+        res |= c if c else {"unpredicted"}
     return ",".join(sorted(res))
 
 
